@@ -49,6 +49,8 @@ TForget   == Ev("Forget") /\ Adv /\ Forget /\ UNCHANGED <<rk, sub>>
 TSinkClone == Ev("SinkClone") /\ Adv /\ SinkClone /\ UNCHANGED <<rk, sub>>
 TSinkDrop == Ev("SinkDrop") /\ Adv /\ SinkDrop /\ UNCHANGED <<rk, sub>>
 TQuiesce  == Ev("Quiesce") /\ Adv /\ Quiesced /\ UNCHANGED <<avars, rk, sub>>
+\* the queue's own metrics are the subject of QueueMetricsTrace.tla (X04); here they are skipped
+TSelfMetrics == Ev("SelfMetrics") /\ Adv /\ UNCHANGED <<avars, rk, sub>>
 TOverflows == Ev("Overflows") /\ Adv /\ OverflowCount(Rec[l].n) /\ UNCHANGED <<avars, rk, sub>>
 \* events the harness logs when something that must happen did not (append took longer
 \* than its budget, a flush never completed, the stream was never closed, a panic):
@@ -70,7 +72,7 @@ SilentPop == /\ l <= N /\ Pop
 TNext_ ==
     \/ TReset \/ TAppStart \/ TAppEnd \/ TNext \/ TReport \/ TFlush \/ TClose
     \/ TFlushReq \/ TFlushDone \/ TDropStart \/ TDropEnd \/ TForget \/ TSinkClone \/ TSinkDrop
-    \/ TQuiesce \/ TOverflows
+    \/ TQuiesce \/ TOverflows \/ TSelfMetrics
     \/ SilentLin \/ SilentPop
 
 TSpec == TInit /\ [][TNext_]_tvars
